@@ -321,25 +321,26 @@ func isAscendingIndex(idx ssa.Value) bool {
 			return false
 		}
 		ph, ok := x.X.(*ssa.Phi)
-		if !ok || len(ph.Edges) != 2 {
+		if !ok {
 			return false
 		}
+		ninit := 0
 		for _, e := range ph.Edges {
 			if e == ssa.Value(x) {
 				continue
 			}
 			if n, ok := ConstInt(e); ok && n == -1 {
+				ninit++
 				continue
 			}
 			return false
 		}
-		return true
+		return ninit == 1
 	case *ssa.Phi:
-		if len(x.Edges) != 2 {
-			return false
-		}
+		ninit := 0
 		for _, e := range x.Edges {
 			if n, ok := ConstInt(e); ok && n == 0 {
+				ninit++
 				continue
 			}
 			if b, ok := e.(*ssa.BinOp); ok && b.Op == token.ADD && b.X == ssa.Value(x) {
@@ -349,7 +350,7 @@ func isAscendingIndex(idx ssa.Value) bool {
 			}
 			return false
 		}
-		return true
+		return ninit == 1
 	}
 	return false
 }
